@@ -220,6 +220,10 @@ type world struct {
 	n     int
 	names []string
 	pend  []op // forced mode: registrations whose unification has not been run yet
+	// the registry the factory builds with model_registry.enable_unifier: false (a RoutingRegistry around a
+	// MemoryModelRegistry), fed the same operations in sequential histories
+	rr    domain.ModelRegistry
+	rrSvc *discovery.ModelDiscoveryService
 }
 
 func newWorld(n int, names []string) *world {
@@ -230,6 +234,10 @@ func newWorld(n int, names []string) *world {
 	w.base = runtime.NumGoroutine()
 	w.reg = registry.NewUnifiedMemoryModelRegistry(vlib.QuietLogger(), nil, nil, nil)
 	w.svc = discovery.NewModelDiscoveryService(w.cl, &repo{w.eps}, w.reg, discovery.DiscoveryConfig{Timeout: 2 * time.Second, ConcurrentWorkers: 3}, vlib.QuietLogger())
+	if rr, err := registry.NewModelRegistry(registry.RegistryConfig{Type: "memory", EnableUnifier: false}, vlib.QuietLogger()); err == nil {
+		w.rr = rr
+		w.rrSvc = discovery.NewModelDiscoveryService(w.cl, &repo{w.eps}, rr, discovery.DiscoveryConfig{Timeout: 2 * time.Second, ConcurrentWorkers: 3}, vlib.QuietLogger())
+	}
 	return w
 }
 
@@ -258,6 +266,67 @@ func toFilter(f *fcfg) *domain.FilterConfig {
 		return nil
 	}
 	return &domain.FilterConfig{Include: f.Include, Exclude: f.Exclude}
+}
+
+// applyRR: the same operation on the non-unified registry (sequential histories only)
+func (w *world) applyRR(o op) {
+	if w.rr == nil {
+		return
+	}
+	ctx := context.Background()
+	defer func() { _ = recover() }()
+	switch o.Op {
+	case "disc":
+		ep := *w.eps[o.E]
+		ep.ModelFilter = toFilter(o.Filter)
+		ms := mis(o.Models)
+		dctx, cancel := context.WithCancel(ctx)
+		defer cancel()
+		w.cl.set(ep.URLString, func() ([]*domain.ModelInfo, error) {
+			if o.Fail {
+				return nil, errors.New("scripted discovery failure")
+			}
+			if o.Cancel {
+				cancel()
+			}
+			return ms, nil
+		})
+		_ = w.rrSvc.DiscoverEndpoint(dctx, &ep)
+	case "reg":
+		_ = w.rr.RegisterModels(ctx, epURL(o.E), mis(o.Models))
+	case "reg1":
+		_ = w.rr.RegisterModel(ctx, epURL(o.E), mi(o.Model))
+	case "remove":
+		_ = w.rr.RemoveEndpoint(ctx, epURL(o.E))
+	case "badurl":
+		_ = w.rr.RegisterModels(ctx, o.URL, mis(o.Models))
+	}
+}
+
+// rrViews: what the non-unified registry says: per endpoint its listing (names), per name its endpoints
+func (w *world) rrViews() (models [][]string, eps map[string][]int) {
+	if w.rr == nil {
+		return nil, nil
+	}
+	ctx := context.Background()
+	eps = map[string][]int{}
+	for e := 0; e < w.n; e++ {
+		ms, _ := w.rr.GetModelsForEndpoint(ctx, epURL(e))
+		row := []string{}
+		for _, m := range ms {
+			row = append(row, m.Name)
+		}
+		sort.Strings(row)
+		models = append(models, row)
+	}
+	for _, nm := range w.names {
+		if nm == "" {
+			continue
+		}
+		b, _ := w.rr.GetEndpointsForModel(ctx, nm)
+		eps[nm] = idxs(b)
+	}
+	return models, eps
 }
 
 // apply one op; returns ok (the call returned nil)
@@ -312,9 +381,11 @@ func (w *world) apply(o op, forced bool) (ok bool) {
 }
 
 type step struct {
-	OK  bool   `json:"ok"`
-	OKs []bool `json:"oks,omitempty"`
-	Obs obs    `json:"obs"`
+	OK       bool             `json:"ok"`
+	OKs      []bool           `json:"oks,omitempty"`
+	Obs      obs              `json:"obs"`
+	RRModels [][]string       `json:"rr_models,omitempty"`
+	RREps    map[string][]int `json:"rr_eps,omitempty"`
 }
 
 func namesOf(ops []op) []string {
@@ -347,7 +418,12 @@ func caseHist(c *vlib.Cases, mode string, n int, ops []op) {
 		} else {
 			ob = w.quiesce()
 		}
-		steps = append(steps, step{OK: ok, Obs: ob})
+		st := step{OK: ok, Obs: ob}
+		if mode != "forced" {
+			w.applyRR(o)
+			st.RRModels, st.RREps = w.rrViews()
+		}
+		steps = append(steps, st)
 	}
 	c.Emit(map[string]any{"kind": "hist", "mode": mode, "n": n, "ops": ops, "names": names, "impl": map[string]any{"steps": steps}})
 }
